@@ -8,8 +8,10 @@ RULE = ("groups of 1-4 generated journal files in random unformatted layouts (co
         "`strace -f` run of `knut format <files>` whose system calls on the target directory are mapped to the operation "
         "alphabet of Model/AtomicFS.v and fed, per target, to the extracted safe_trace; then `knut format` under "
         "RLIMIT_FSIZE = k for k in {0, 1, random offsets up to beyond the formatted size} (quick: 12 per group; thorough: "
-        "every byte offset 0..len+120 of 200 single files), and a run as an unprivileged user in a directory without "
-        "write permission for every 8th group.  After every run each file is classified old | new | other against the "
+        "every byte offset 0..len+120 of 200 single files; GOMAXPROCS default, 1 and 2 in turn), three runs per multi-file "
+        "group (GOMAXPROCS 1, 2, 16) with one more file whose 255-byte name makes its temporary file impossible to create "
+        "(a failure of ONE of several files: the others must end new), and a run as an unprivileged user in a directory "
+        "without write permission for every 8th group.  After every run each file is classified old | new | other against the "
         "input bytes and the expected formatted bytes (computed in-process with syntax.ParseFile + syntax.FormatFile), "
         "left-over directory entries are counted.  Non-trivial: a fault run whose limit is at least 1 byte and below the "
         "formatted size of some file (the write is cut short after >= 1 byte), or a strace run; distinct by input.")
@@ -49,17 +51,19 @@ def nontrivial(c):
         head, det = c.observed.split(" ## ")
         limit = int(c.input.split(";")[1].split("=")[1])
         sizes = [len(d.split("^")[2]) // 2 for d in det.split("|") if d.split("^")[1] == "1"]
-        return c.input.startswith("mode=rodir") or any(1 <= limit < s for s in sizes)
+        return c.input.startswith("mode=rodir") or c.input.startswith("mode=longname") or any(1 <= limit < s for s in sizes)
     except Exception:
         return False
 
 
 def distribution(cases):
-    d = {"strace_runs": 0, "rlimit_runs": 0, "rodir_runs": 0, "files": 0, "unparseable_files": 0,
+    d = {"strace_runs": 0, "rlimit_runs": 0, "rodir_runs": 0, "longname_runs": 0, "gomaxprocs": {}, "files": 0, "unparseable_files": 0,
          "final_old": 0, "final_new": 0, "final_other": 0, "exit": {}, "cut_after_ge1_byte": 0}
     for c in cases:
         mode = c.input.split(";")[0].split("=")[1]
-        d[{"strace": "strace_runs", "rlimit": "rlimit_runs", "rodir": "rodir_runs"}.get(mode, "rlimit_runs")] += 1
+        d[{"strace": "strace_runs", "rlimit": "rlimit_runs", "rodir": "rodir_runs", "longname": "longname_runs"}.get(mode, "rlimit_runs")] += 1
+        pr = ([f.split("=")[1] for f in c.input.split(";files=")[0].split(";") if f.startswith("procs=")] or ["default"])[0]
+        d["gomaxprocs"][pr] = d["gomaxprocs"].get(pr, 0) + 1
         head = (c.observed or "").split(" ## ")[0]
         kv = dict(f.split("=", 1) for f in head.split(" ") if "=" in f)
         d["exit"][kv.get("exit", "?")] = d["exit"].get(kv.get("exit", "?"), 0) + 1
